@@ -400,8 +400,9 @@ class DequeGen:
                     ops.append((f"add_first {i + 1}" if i % 3 == 0 else f"add_last {i + 1}"))
                 ops += ["remove_first", "remove_last", "trim", "add_at 7 0", "remove_all", "trim", "add 5", "destroy"]
                 out.append(ops)
-            out.append(["new cap=4 fail=1", "add 1", "destroy"])
-            out.append(["new cap=4 fail=2", "add 1", "destroy"])
+            if focus == "all":                      # only "all" carries fail= (CONVENTIONS addendum)
+                out.append(["new cap=4 fail=1", "add 1", "destroy"])
+                out.append(["new cap=4 fail=2", "add 1", "destroy"])
             out.append(["new_default", "add 1", "add_first 2", "remove_last", "remove_last", "remove_last", "destroy"])
         if focus in ("iter", "all"):
             icaps = (1, 2, 4) if tier == "quick" else (1, 2, 4, 8)
